@@ -249,6 +249,9 @@ func (m *multiSim) oneHeight() (ok bool) {
 		if tx, e := fsm.NewChangeParamTxUint64(A.accKeys[m.rng.Intn(len(A.accKeys))], fsm.ParamSpaceVal, fsm.ParamUnstakingBlocks, val, 0, 1000000, 1, 1, 20000, h, ""); e == nil {
 			bz, _ := lib.Marshal(tx)
 			raws = append(raws, bz)
+			if os.Getenv("NODEX_DEBUG") != "" {
+				fmt.Fprintf(os.Stderr, "param tx at height %d value %d: mempool says %v\n", h, val, A.c.Mempool.HandleTransactions(bz))
+			}
 			b.Ops = append(b.Ops, Op{Op: "unstake", Who: 1 + m.rng.Intn(3)})
 		}
 	}
